@@ -355,7 +355,7 @@ impl Property for C18 {
         prop_oneof![3 => vamm, 2 => feedc].boxed()
     }
     fn cases(&self, tier: Tier) -> u32 {
-        tier.pick(200_000, 6_000_000)
+        tier.pick(600_000, 6_000_000)
     }
     fn rule(&self) -> String {
         "vAMM flavour (3/5 of the cases): generated reserves and block schedules (gaps 0 s .. 11 days, so that histories and query intervals longer than a week occur; block times with a sub-second fraction) with 0-4 swaps per block through the real entry points; the harness records (block time, block-final spot) for every block with an accepted swap plus the creation entry; after each block TwapPrice{i} is queried for intervals shorter / equal / longer than the history, aligned with and just inside snapshot lifetimes: the answer must lie between the lowest and highest recorded price in effect in [now-i, now] (whole history if shorter), equal spot when the price did not change in the window, and agree (+-1) with the reference time-weighted mean over the block-final prices. Feed flavour: generated round sequences on the real price feed, submitted singly and in AppendMultiplePrice batches (non-decreasing timestamps incl. repeats, not in the future); GetTwapPrice within the bounds of the submissions overlapping the window, GetPrice = last submission, GetPreviousPrice{n} for n < rounds answers with exactly the (rounds-n)-th submission, and any successful answer for larger n would have to be a submitted round. Queries that error or panic give no value and are counted, not judged. Non-trivial: vAMM: a window starting strictly inside a snapshot's lifetime with >= 3 distinct prices in the history and a block with >= 2 swaps; feed: >= 3 submissions and a window overlapping different prices. Distinct by digest of the case.".into()
